@@ -10,7 +10,7 @@ mod verif_c06_pb {
     use crate::style::verif_rig_style::*;
     use crate::verif_common::*;
 
-    // @harness id=C06 tier=quick timeout=2400 mem=14 checks=rust
+    // @harness id=C06 tier=deep timeout=3400 mem=24 checks=rust
     // @bounds ProgressBar::set_tab_width(w in 0..=9) on a hidden bar whose message holds a tab: the logical state changes exactly as for a visible bar (bar width, message width and style width become w), nothing is written, position / length untouched
     #[kani::proof]
     #[kani::unwind(6)]
